@@ -423,7 +423,25 @@ class SysdataSuite(PipeSuite):
         return super().run(tier, seed, sspec, focus)
 
 
-SUITES = {"plan": PlanSuite(), "exec": ExecSuite(), "world": WorldSuite(), "sysdata": SysdataSuite()}
+class MetaSuite(WorldSuite):
+    name = "meta"
+
+    def gens(self, tier, seed, sspec):
+        s = str(seed)
+        if tier == "quick":
+            return [("exhaustive len<=5 over 3 types, 11-op menu, stride 16", ["--gen", "exh", "--count", "16", "--seed", s], {}),
+                    ("random histories (register with repeats, insert/remove, get/get_mut, iter/iter_mut, held fetches)", ["--gen", "random", "--count", "150", "--seed", s], {}),
+                    ("histories including a type with an address-changing cast", ["--gen", "bad", "--count", "100", "--seed", s], {})]
+        if tier == "thorough":
+            return [("exhaustive len<=5 over 3 types, 11-op menu", ["--gen", "exh", "--count", "1", "--seed", s], {}),
+                    ("random histories", ["--gen", "random", "--count", "6000", "--seed", s], {}),
+                    ("histories including a type with an address-changing cast", ["--gen", "bad", "--count", "4000", "--seed", s], {})]
+        return [("search:random", ["--gen", "random", "--count", "1500", "--seed", s], {}),
+                ("search:bad", ["--gen", "bad", "--count", "800", "--seed", s], {}),
+                ("search:exh stride 4", ["--gen", "exh", "--count", "4", "--seed", s], {})]
+
+
+SUITES = {"plan": PlanSuite(), "exec": ExecSuite(), "world": WorldSuite(), "sysdata": SysdataSuite(), "meta": MetaSuite()}
 
 
 # ----------------------------------------------------------------------------------------
